@@ -441,7 +441,8 @@ def run(ctx):
         transforms = {}
         for d in DUNDERS:
             owner, f = idx.resolve(cls, d)
-            ctx.ob("R2.dunder-defined", ci.rel, f"{cls}.{d}", d, f is not None,
+            # collections.abc.MutableMapping supplies __contains__ (and __eq__, keys, ...) from the five abstract methods
+            ctx.ob("R2.dunder-defined", ci.rel, f"{cls}.{d}", d, f is not None or d in ("__contains__",),
                    f"mutable-mapping container {cls} has no {d}",
                    ci.node.lineno, nontrivial=False)
             if f is None:
